@@ -5,6 +5,7 @@
 package props
 
 import (
+	"encoding/binary"
 	"encoding/json"
 	"fmt"
 	"hash/fnv"
@@ -81,7 +82,9 @@ type Stats struct {
 	Skipped     int64          `json:"skipped"`
 	NonTrivial  int64          `json:"nontrivial"`      // non-trivial evaluations (not de-duplicated)
 	EnumNonTriv int64          `json:"enum_nontrivial"` // distinct by construction (enumerators)
-	Hashes      []uint64       `json:"hashes"`          // hashes of distinct non-trivial generated cases
+	Hashes      []uint64       `json:"hashes"`          // (unused: see HashFile)
+	HashFile    string         `json:"hash_file"`       // binary file with the hashes of the distinct non-trivial generated cases
+	HashCount   int            `json:"hash_count"`
 	Classes     map[string]int `json:"classes"`
 	Samples     []interface{}  `json:"samples"`
 	Excluded    map[string]int `json:"excluded_known"`
@@ -106,7 +109,7 @@ var (
 )
 
 const maxSamples = 6
-const maxHashes = 4000000
+const maxHashes = 3000000 // per process; beyond it distinct non-trivial cases are under-counted (conservative)
 
 func getCollector(prop, check string) *Collector {
 	collMu.Lock()
@@ -286,9 +289,16 @@ func writeStats() {
 		c := collectors[n]
 		c.mu.Lock()
 		st := c.st
-		st.Hashes = make([]uint64, 0, len(c.hashes))
-		for h := range c.hashes {
-			st.Hashes = append(st.Hashes, h)
+		// hashes go to a binary side file (8 bytes each, little endian): JSON would be too slow for millions
+		st.Hashes = nil
+		st.HashCount = len(c.hashes)
+		if len(c.hashes) > 0 {
+			st.HashFile = fmt.Sprintf("%s.%s.h64", p, sanitize(n))
+			buf := make([]byte, 0, 8*len(c.hashes))
+			for h := range c.hashes {
+				buf = binary.LittleEndian.AppendUint64(buf, h)
+			}
+			os.WriteFile(st.HashFile, buf, 0o644)
 		}
 		c.mu.Unlock()
 		if st.Violations == nil {
